@@ -28,6 +28,9 @@ pub struct Case {
     pub prior_mib: u8,
     pub sync: bool,
     pub no_progress: bool,
+    /// source and destination on tmpfs (/dev/shm): holes are reported by SEEK_DATA/SEEK_HOLE, FIEMAP is unsupported
+    #[serde(default)]
+    pub tmpfs: bool,
 }
 
 pub fn strategy() -> BoxedStrategy<Case> {
@@ -43,8 +46,9 @@ pub fn strategy() -> BoxedStrategy<Case> {
         prop_oneof![3 => Just(0u8), 1 => 1u8..9],
         any::<bool>(),
         prop::bool::weighted(0.15),
+        prop::bool::weighted(0.15),
     )
-        .prop_map(|(segs, lead_hole_mib, skew, block, parblock, workers, prior_mib, sync, no_progress)| Case { segs, lead_hole_mib, skew, block, parblock, workers, prior_mib, sync, no_progress })
+        .prop_map(|(segs, lead_hole_mib, skew, block, parblock, workers, prior_mib, sync, no_progress, tmpfs)| Case { segs, lead_hole_mib, skew, block, parblock, workers, prior_mib, sync, no_progress, tmpfs })
         .boxed()
 }
 
@@ -122,7 +126,7 @@ pub fn capability_probe() -> Result<(), String> {
 }
 
 pub fn judge(c: &Case, rec: &mut Rec) -> Verdict {
-    let sb = match Sandbox::new() {
+    let sb = match if c.tmpfs { Sandbox::new_in("/dev/shm") } else { Sandbox::new() } {
         Ok(s) => s,
         Err(e) => return Verdict::Inconclusive(format!("sandbox: {e}")),
     };
@@ -164,6 +168,9 @@ pub fn judge(c: &Case, rec: &mut Rec) -> Verdict {
         if out.ok() { "0" } else { "!0" }
     );
     let new = rec.class(key);
+    if c.tmpfs {
+        rec.class(format!("on-tmpfs|{}|segs={}|exit={}", driver, std::cmp::min(nsegs, 2), if out.ok() { "0" } else { "!0" }));
+    }
     if !out.ok() {
         rec.count("exit_nonzero", 1);
         return Verdict::Pass;
@@ -251,7 +258,7 @@ impl Check for C11 {
         "C11"
     }
     fn rule(&self) -> String {
-        "proptest-generated sparse files on ext4: 0-100 data segments of 1 B..256 KiB (non-zero bytes, at most 4 MiB in total) separated by holes of 1-64 MiB (apparent size up to ~1 GiB), leading / trailing / interleaved holes and entirely empty files, offsets aligned or skewed by 1..4095 bytes, more than 32 extents in a quarter of the cases; block size 1000 B, 4 KiB, 64 KiB, 1 MiB, 64 MiB, default or --no-progress; both drivers; workers 1-16; destination fresh or a pre-existing fully allocated file of 1-8 MiB; source fsync'ed or not. Oracle on exit 0: same length and bytes (hole-independent hash), and st_blocks*512 of the destination <= that of the source + max(64 KiB, 8 KiB x segments), which is below the smallest generated hole (1 MiB), so materialising even one hole trips it. Non-trivial: every exit-0 case (all have >= 1 hole); distinct by case hash.".into()
+        "proptest-generated sparse files on ext4 and (one case in seven) on tmpfs, where holes are reported by SEEK_DATA/SEEK_HOLE but FIEMAP is unsupported: 0-100 data segments of 1 B..256 KiB (non-zero bytes, at most 4 MiB in total) separated by holes of 1-64 MiB (apparent size up to ~1 GiB), leading / trailing / interleaved holes and entirely empty files, offsets aligned or skewed by 1..4095 bytes, more than 32 extents in a quarter of the cases; block size 1000 B, 4 KiB, 64 KiB, 1 MiB, 64 MiB, default or --no-progress; both drivers; workers 1-16; destination fresh or a pre-existing fully allocated file of 1-8 MiB; source fsync'ed or not. Oracle on exit 0: same length and bytes (hole-independent hash), and st_blocks*512 of the destination <= that of the source + max(64 KiB, 8 KiB x segments), which is below the smallest generated hole (1 MiB), so materialising even one hole trips it. Non-trivial: every exit-0 case (all have >= 1 hole); distinct by case hash.".into()
     }
     fn assumptions(&self) -> Vec<String> {
         vec!["sandbox filesystem supports SEEK_HOLE and FIEMAP (probed at start; exit 2 otherwise)".into()]
@@ -286,6 +293,6 @@ impl Check for C11 {
         }
     }
     fn required_classes(&self, _tier: Tier) -> Vec<String> {
-        ["segs=0", "segs=1|", "segs=2-32", "segs=>32", "|lead|", "|trail|", "|inner|", "block<segment", "block>hole", "prior-allocated", "unaligned", "parblock|", "parfile|", "libfs|copy_file", "libfs|sparse"].iter().map(|s| s.to_string()).collect()
+        ["segs=0", "segs=1|", "segs=2-32", "segs=>32", "|lead|", "|trail|", "|inner|", "block<segment", "block>hole", "prior-allocated", "unaligned", "parblock|", "parfile|", "libfs|copy_file", "libfs|sparse", "on-tmpfs|parblock|segs=2|exit=0", "on-tmpfs|parfile|segs=2|exit=0"].iter().map(|s| s.to_string()).collect()
     }
 }
